@@ -298,3 +298,29 @@ package keeper
 //@   loop L4 invariant duplicate ==> (exists j int :: 0 <= j && j <= rangeindex && idx[j] == rs)
 //@   loop L4 invariant !duplicate ==> (forall j int :: 0 <= j && j <= rangeindex ==> idx[j] != rs)
 //@   loop L4 decreases [C02.ri.term] len(idx) - rangeindex
+
+//@ store NodeRound kv=node/NodeRound/value/ key=node_NodeRoundKey raw
+
+//@ func (Keeper) GetAllSuperNodes(ctx) (list)
+//@   requires forall k bytes :: rawhas(Node, k) ==> k == keyof(Node, rawget(Node, k).Creator)
+//@   modifies nothing
+//@   nopanic [C02.supers.nopanic]
+//@   ensures [C15.supers.stored] forall j int :: 0 <= j && j < len(list) ==> has(Node, list[j].Creator) && Node[list[j].Creator] == list[j] && list[j].Role == 1
+//@   loop L1 invariant 0 <= itpos() && itpos() <= itlen()
+//@   loop L1 invariant forall j int :: 0 <= j && j < len(list) ==> has(Node, list[j].Creator) && Node[list[j].Creator] == list[j] && list[j].Role == 1
+//@   loop L1 decreases [C02.supers.term] itlen() - itpos()
+
+// round-robin choice of one super node that is eligible for the shard and not on the ignore list
+//@ func (Keeper) GetNextSuperNodes(ctx, status, reputation, ignore, size) (n)
+//@   requires forall k bytes :: rawhas(Node, k) ==> k == keyof(Node, rawget(Node, k).Creator)
+//@   modifies NodeRound
+//@   nopanic [C02.super.nopanic]
+//@   ensures [C15.super.stored] n.Creator != "" ==> has(Node, n.Creator) && Node[n.Creator] == n && n.Role == 1
+//@   ensures [C15.super.elig] n.Creator != "" ==> has(Pledge, n.Creator) && i64(Pledge[n.Creator].TotalStorage - Pledge[n.Creator].UsedStorage) >= size
+//@       && (status & n.Status) == status && n.Reputation >= reputation
+//@   ensures [C15.super.ignore] n.Creator != "" ==> !contains(ignore, n.Creator)
+//@   loop L1 invariant len(snodes) > 0 && 0 <= i && i <= 255 && 0 <= tried
+//@   loop L1 decreases [C02.super.term] len(snodes) - tried
+//@   loop L2 invariant -1 <= rangeindex && rangeindex < len(ignore0) && 0 <= i && i < len(snodes)
+//@   loop L2 invariant forall j int :: 0 <= j && j <= rangeindex ==> ignore0[j] != snodes[i].Creator
+//@   loop L2 decreases [C02.super.term] len(ignore0) - rangeindex
